@@ -175,6 +175,6 @@ def run(R):
             else:
                 # (ii) every exact all-pairs intersection lies in the hull of the returned points (so the slice is complete)
                 for s_ in Mf:
-                    if not in_conv_lp(out, s_, 1e-8 * sc):
+                    if not in_conv_lp(out, s_, 1e-6 * sc):   # HiGHS itself is only feasible to 1e-7
                         R.failB(dict(c, impl=out, missing=s_), "the point %s of conv(P) on the plane is outside the hull of the returned points: the slice is not exact" % s_.tolist(), sig + ":slice-incomplete")
                         break
